@@ -300,6 +300,14 @@ def run(ctx, rep, tier):
     bisim(rep, "C12.f", "CodegenCtx._generate_state_object_decl", E.enumerate("CodegenCtx._generate_state_object_decl"), Rh, norm_hdr,
           "header-only options in the state struct", floor=4)
     bisim(rep, "C12.f", "CodegenCtx._generate_out_enum", E.enumerate("CodegenCtx._generate_out_enum"), Rh, norm_hdr, "packed enums in out enums", floor=1)
+    run_range(ctx, rep)
+
+
+def run_range(ctx, rep):
+    rep.rule("C12.g", "range-collapse threshold: the run detection restarts at gaps, so the set of bytes a collapsed test accepts does not depend on the threshold "
+                      "(necessary structural condition; the arithmetic itself is not decided)")
+    from .c06 import check_range_runs
+    check_range_runs(ctx, rep, "C12.g")
 
 
 def norm_mem_start(texts, v):
